@@ -54,6 +54,8 @@ def strategy(tier):
             "history": gen.histories(),
             "stop": st.one_of(st.none(), st.none(), st.integers(0, 36)),
             "observers": gen.weighted((2, st.just([])), (1, obs.feature_configs(min_size=1, max_size=3))),
+            # start times never depend on the installed filter (any callable)
+            "filters": gen.filter_configs(max_len=2, custom=True),
         }
     )
     small = gen.instances(
@@ -133,7 +135,10 @@ def check_last(ctx, d, j, p, m, s, where):
 
 def _sequence(case, ctx):
     inst, history, stop = case["inst"], case["history"], case["stop"]
-    drv = Driver(inst, None)
+    filters = case.get("filters")
+    if filters and any(x == 0 for r in inst["durations"] for x in r):
+        filters = [f for f in filters if f != "dominated_operations"] or None
+    drv = Driver(inst, filters)
     d = drv.dispatcher
     hist = HistoryObserver(d)
     # bookkeeping must match whatever observers are attached
@@ -165,10 +170,11 @@ def _sequence(case, ctx):
                     "start_time-query",
                     f"step {k}: Dispatcher.start_time(({jj},{pp}),{mm}) = {got} != {model.start(jj, mm)}",
                 )
+            want_now = model.min_start(model.available(filters))
             ctx.check(
-                d.current_time() == model.min_start(model.ready()),
+                d.current_time() == want_now,
                 "current_time-query",
-                f"step {k}: current_time() {d.current_time()} != {model.min_start(model.ready())}",
+                f"step {k}: current_time() {d.current_time()} != {want_now} (filters {filters})",
             )
         st_real = d.start_time(drv.op(j, p), m)
         ctx.check(
